@@ -316,6 +316,10 @@ def check_case(case, lean_out, real=None, use_model=True):
     if not case.get('sort_mpo_legs'):
         if idl != j['IdL'] or idr != j['IdR'] or [len(s) for s in st] != j['chi']:
             fails.append(('correspondence', 'model.IdL_IdR_chi', f'impl {j["IdL"]} {j["IdR"]} {j["chi"]} model {idl} {idr}'))
+    if lean_out.get('spec_ok') is False:
+        fails.append(('correspondence', 'model.graph_spec', 'closed form of the graph (GraphSpec.specLayers) differs from the imperative model'))
+    if lean_out.get('spec_ok') is True:
+        facts['spec_ok'] = True
     if not lean_out.get('paths_ok'):
         fails.append(('correspondence', 'model.graph_paths',
                       'denotation of the model graph differs from the formal sum of the model term lists: '
